@@ -6,6 +6,7 @@ AllOps == {"get", "multiget", "getnext", "multigetnext", "set", "multiset", "bul
 PertData == {"none", "extra", "dropped", "oversize", "set_other"}
 PertId   == {"none", "id_plus", "id_minus", "id_arb", "wrong_comm", "wrong_ver"}
 PertErr  == {"err"}
+PertForeign == {"none", "wrong_comm", "wrong_ver"}
 StatQ == {1, 2, 5, 18, 19, 255, -1}
 StatT == (1..19) \cup {255, -1}
 AllV == {"v1", "v2c", "v3"}
